@@ -4,6 +4,11 @@
 //	            parser.ParseSeqQL / parser.ParseQuery must return a query whose AST (AND/OR/NOT/NAND over
 //	            literals, as handed to the search engine) has exactly that table; the AST is also compared
 //	            with the specification's transcription of the accumulator parser + propagateNot ("shape").
+//	kind "pipe": a filter expression followed by a tail of lexer tokens (bar, fields, except, commas, bare and quoted
+//	            names, quoted empty / keyword / separator tokens) in one spacing.  ParseSeqQL must end in the outcome of
+//	            the reference grammar (query | error, never a panic); a query must carry exactly the pipes of the
+//	            reference (field list, except flag) and an AST with the truth table of the filter expression.
+//	            ParseQuery and ParseAggregationFilter get the same string: (query | error).
 //	kind "tot": a hostile lexeme sequence (plus all its extensions by <= k lexemes) x every mapping type
 //	            of field f; ParseSeqQL, ParseQuery and ParseAggregationFilter must return (query | error):
 //	            a panic or a call that does not return is a totality violation.
@@ -125,6 +130,15 @@ type Case struct {
 	Core    []string          `json:"core"`
 	Close   []string          `json:"close"`
 	N       int               `json:"n"`
+	Toks    []string          `json:"toks"`
+	Exp     string            `json:"exp"`
+	Pipes   []PipeExp         `json:"pipes"`
+}
+
+// PipeExp: one pipe of the reference (Parser.tla RefPipe): fields [except] names
+type PipeExp struct {
+	Fields []string `json:"fields"`
+	Except bool     `json:"except"`
 }
 
 var typeByName = map[string]seq.TokenizerType{
@@ -407,6 +421,11 @@ var (
 )
 
 func reportOutcome(n int, fn, mp, q, outcome, msg string, allowed []string) {
+	reportAs("outcome", n, fn, mp, q, outcome, msg, strings.Join(allowed, "|"))
+}
+
+// reportAs: one record per (what, entry point, mapping, outcome, message) with the shortest input and a count
+func reportAs(what string, n int, fn, mp, q, outcome, msg, exp string) {
 	if len(q) > 200 {
 		q = fmt.Sprintf("%s...(%d bytes)...%s", q[:40], len(q), q[len(q)-20:])
 	}
@@ -414,21 +433,27 @@ func reportOutcome(n int, fn, mp, q, outcome, msg string, allowed []string) {
 	if i := strings.Index(m, "&{"); i >= 0 { // "BUG: lexer is not end: {..state..}" and similar: keep the stable part
 		m = m[:i]
 	}
+	if i := strings.Index(m, ": {"); i >= 0 && what == "outcome" {
+		m = m[:i]
+	}
+	if what == "pipes" { // the message is the returned list itself
+		m = ""
+	}
 	if len(m) > 80 {
 		m = m[:80]
 	}
-	key := fn + "|" + mp + "|" + outcome + "|" + digits.ReplaceAllString(m, "N")
+	key := what + "|" + fn + "|" + mp + "|" + outcome + "|" + digits.ReplaceAllString(m, "N")
 	sigMu.Lock()
 	defer sigMu.Unlock()
 	r := sigs[key]
 	if r == nil {
-		sigs[key] = &sigRec{N: n, What: "outcome", Fn: fn, Map: mp, Got: outcome + ": " + msg, Exp: strings.Join(allowed, "|"),
+		sigs[key] = &sigRec{N: n, What: what, Fn: fn, Map: mp, Got: outcome + ": " + msg, Exp: exp,
 			Q: strconv.QuoteToASCII(q), Count: 1}
 		return
 	}
 	r.Count++
 	if len(strconv.QuoteToASCII(q)) < len(r.Q) {
-		r.N, r.Q, r.Got = n, strconv.QuoteToASCII(q), outcome+": "+msg
+		r.N, r.Q, r.Got, r.Exp = n, strconv.QuoteToASCII(q), outcome+": "+msg, exp
 	}
 }
 
@@ -544,6 +569,118 @@ func leaves(t *Tree, out []string) []string {
 		return append(out, strconv.QuoteToASCII(t.F+":"+t.W))
 	}
 	return leaves(t.R, leaves(t.L, out))
+}
+
+// ---------------------------------------------------------------- kind "pipe"
+func pipesOf(ps []parser.Pipe) ([]PipeExp, error) {
+	out := []PipeExp{}
+	for _, p := range ps {
+		f, ok := p.(*parser.PipeFields)
+		if !ok || f == nil {
+			return nil, fmt.Errorf("pipe of type %T", p)
+		}
+		out = append(out, PipeExp{Fields: append([]string{}, f.Fields...), Except: f.Except})
+	}
+	return out, nil
+}
+
+func showPipes(ps []PipeExp) string {
+	b, _ := json.Marshal(ps)
+	return string(b)
+}
+
+func (w *worker) runPipe(n int, c *Case, st *stats) {
+	q := spell(c.Q)
+	atomSet := map[[2]string]bool{}
+	for i := range c.Atoms {
+		c.Atoms[i][1] = unname(c.Atoms[i][1])
+		atomSet[c.Atoms[i]] = true
+	}
+	typed, err := readDecl(c.Decl)
+	if err != nil {
+		emit(map[string]any{"infra": err.Error()})
+		os.Exit(3)
+	}
+	if c.Exp != "ok" && c.Exp != "err" {
+		emit(map[string]any{"infra": "pipe case with expectation " + c.Exp})
+		os.Exit(3)
+	}
+	if c.Pipes == nil {
+		c.Pipes = []PipeExp{}
+	}
+	atomic.AddInt64(&st.inputs, 1)
+	if c.Exp == "ok" && len(c.Pipes) > 0 {
+		atomic.AddInt64(&st.nontrivial, 1)
+	}
+	type run struct {
+		mp string
+		m  seq.Mapping
+	}
+	runs := []run{{"typed", typed}}
+	if c.NilMap {
+		runs = append(runs, run{"nil", nil})
+	}
+	for _, r := range runs {
+		atomic.AddInt64(&st.evals, 1)
+		var pipes []parser.Pipe
+		ast, outcome, msg := w.call(n, "ParseSeqQL", r.mp, q, func() (*parser.ASTNode, error) {
+			res, err := parser.ParseSeqQL(q, r.m)
+			if err != nil {
+				return nil, err
+			}
+			pipes = res.Pipes
+			return res.Root, nil
+		})
+		if outcome != "ok" && outcome != "err" {
+			// neither a query nor an error: the totality half of the property
+			reportOutcome(n, "ParseSeqQL", r.mp, q, outcome, msg, []string{"ok", "err"})
+			continue
+		}
+		if outcome != c.Exp {
+			// the reference grammar of the pipe part says the opposite
+			reportAs("pipe grammar", n, "ParseSeqQL", r.mp, q, outcome, msg, c.Exp+" "+showPipes(c.Pipes))
+			continue
+		}
+		if outcome != "ok" {
+			continue
+		}
+		got, err := pipesOf(pipes)
+		if err != nil || !reflect.DeepEqual(got, c.Pipes) {
+			g := showPipes(got)
+			if err != nil {
+				g = err.Error()
+			}
+			reportAs("pipes", n, "ParseSeqQL", r.mp, q, "ok", g, showPipes(c.Pipes))
+			continue
+		}
+		// the filter expression in front of the pipes keeps its meaning
+		tree, err := shape(ast)
+		if err != nil {
+			emit(map[string]any{"n": n, "what": "returned tree", "fn": "ParseSeqQL", "map": r.mp, "got": err.Error(), "q": strconv.QuoteToASCII(q)})
+			continue
+		}
+		if sg := strangers(tree, atomSet, nil); len(sg) > 0 {
+			emit(map[string]any{"n": n, "what": "returned tree", "fn": "ParseSeqQL", "map": r.mp,
+				"got": "leaf " + strings.Join(sg, ", ") + " is not a word of the expression", "q": strconv.QuoteToASCII(q), "tree": tree})
+			continue
+		}
+		if tt := table(tree, c.Atoms); !reflect.DeepEqual(tt, c.TT) {
+			emit(map[string]any{"n": n, "what": "truth table", "fn": "ParseSeqQL", "map": r.mp, "got": tt, "exp": c.TT,
+				"q": strconv.QuoteToASCII(q), "tree": tree})
+		}
+	}
+	// the other entry points get the same string: a query or an error
+	for _, fn := range []string{"ParseQuery", "ParseAggregationFilter"} {
+		atomic.AddInt64(&st.evals, 1)
+		mp, m := "typed", typed
+		if fn == "ParseAggregationFilter" {
+			mp, m = "-", nil
+		}
+		_, outcome, msg := w.call(n, fn, mp, q, parseWith(fn, q, m))
+		if outcome != "ok" && outcome != "err" {
+			reportOutcome(n, fn, mp, q, outcome, msg, []string{"ok", "err"})
+		}
+	}
 }
 
 var fns = []string{"ParseSeqQL", "ParseQuery"}
@@ -837,6 +974,8 @@ func main() {
 				switch {
 				case it.c.Kind == "sem":
 					w.runSem(it.n, it.c, &st)
+				case it.c.Kind == "pipe":
+					w.runPipe(it.n, it.c, &st)
 				case it.c.Kind == "tot" && *store:
 					w.runStore(it.n, it.c, ss, &st)
 				case it.c.Kind == "tot":
